@@ -11,4 +11,7 @@ def genErr : ErrConsts :=
   { pmfA := Float.ofBits DSGen.kll_ERR_PMF_A_bits, pmfB := Float.ofBits DSGen.kll_ERR_PMF_B_bits,
     cdfA := Float.ofBits DSGen.kll_ERR_CDF_A_bits, cdfB := Float.ofBits DSGen.kll_ERR_CDF_B_bits }
 
+/-- the source shapes of the current headers -/
+def genFlags : Flags := { iterSkipsEmpty := DSGen.kll_ITER_SKIPS_EMPTY_LEVELS, nanRankRejected := DSGen.kll_NAN_RANK_REJECTED }
+
 end DS.Kll
